@@ -89,12 +89,16 @@ def r1(ctx, prog, ev, rep, slice_fn):
             ok = c08.FINITE_ITER.search(ity) is not None and not c08.INFINITE.search(ity)
             rep.check(ok, "C11-R1", "%s|loop#%d" % (slice_fn, n), T.loc(s["node"]), "for over %s" % ity[:60], "`for` over `%s`" % ity)
             n += 1
-    # iterator-style rewrites (step_by) are also fine: count pipelines as loops
-    if n == 0:
-        stepby = [s for s in ev.sited(slice_fn) if s["kind"] == "call" and s["term"].a[0].endswith("Iterator::step_by")]
-        for s in stepby:
-            rep.ok("C11-R1", "%s|step_by" % slice_fn, T.loc(s["node"]), "finite range stepped by step_by")
-            n += 1
+    # iterator-style walks: a pipeline over a finite range terminates (a zero step_by panics: C08-R2 proves n >= 1)
+    from vflib import pipeline as PL
+    seen = set()
+    for s in ev.sited(slice_fn):
+        if s["kind"] == "call" and s["term"].a[0].endswith("Iterator::collect") and id(s["node"]) not in seen:
+            seen.add(id(s["node"]))
+            src, stages = PL.unwind(s["term"])
+            if src.k == "adt" and src.a[0].startswith("core::ops::range::Range") and src.a[1] in ("Range", "RangeInclusive"):
+                rep.ok("C11-R1", "%s|range#%d" % (slice_fn, n), T.loc(s["node"]), "pipeline %s over a finite range" % [x[0] for x in stages])
+                n += 1
 
 
 # ------------------------------------------------------------------------------------------- R2
@@ -529,6 +533,128 @@ def show(x):
     return str(x)
 
 
+def _guard_of(prog, pc, names, arr):
+    guard = None
+    for c in pc:
+        if c[0] == "arm" and c[3] is not None:
+            guard = norm(prog, c[3], names, arr)
+    return guard
+
+
+def loop_walks(prog, ev, sites, names, arr, gets, abstain):
+    """counter loops  `idx = init; while idx < bound { ..get(idx).. ; idx += step }`"""
+    out = []
+    loops = [s for s in sites if s["kind"] == "loop"]
+    ups = [s for s in sites if s["kind"] == "assignop"]
+    if len(loops) != len(ups):
+        abstain.append("%d loops with %d counter updates" % (len(loops), len(ups)))
+        return out
+    for u in ups:
+        term, pc = u["term"], u["pc"]      # bin(Add, phi(init | loopvar), step)
+        if term.a[0] not in ("Add", "Sub"):
+            abstain.append("update is not += / -="); continue
+        idx = term.a[1]
+        inits = [x for x in idx.a if x.k != "loopvar"] if idx.k == "phi" else [idx]
+        if len(inits) != 1:
+            abstain.append("loop counter has %d initial values" % len(inits)); continue
+        init = norm(prog, inits[0], names, arr)
+        stepn = norm(prog, term.a[2], names, arr)
+        if term.a[0] == "Sub":
+            stepn = neg(stepn)
+        cond = None
+        for c in pc:
+            if c[0] == "if" and c[2] is True and c[1].k == "bin":
+                cond = c[1]
+        guard = _guard_of(prog, pc, names, arr)
+        if guard is None or cond is None:
+            abstain.append("dispatch guard / loop condition not found on the path to the update"); continue
+        cn = norm(prog, cond, names, arr)
+        idxn = norm(prog, idx, names, arr)
+
+        def resolve(direction, cn=cn, idxn=idxn, init=init, stepn=stepn):
+            bound = None
+            if cn[0] == "lt":
+                if direction == "pos" and cn[1] == idxn:
+                    bound = cn[2]
+                elif direction == "neg" and cn[2] == idxn:
+                    bound = cn[1]
+            if bound is None:
+                if cn[0] in ("lt", "nlt"):
+                    return init, None, stepn, "loop condition is `%s` with counter `%s`" % (show(cn)[:200], show(idxn)[:80])
+                raise pwl.Undecided("loop condition `%s` has a different shape" % show(cn)[:120])
+            return init, bound, stepn, None
+        fetch = any(any(y == idx for y in subterms(g["term"].a[2])) for g in gets)
+        out.append({"kind": "loop", "guard": guard, "resolve": resolve, "fetch": fetch, "where": T.loc(u["node"])})
+    return out
+
+
+def range_walks(prog, ev, sites, names, arr, abstain):
+    """stepped ranges  `(a..b)[.rev()][.step_by(n)].filter_map(|i| A.get(i)..)/map(|i| ..A[i]..)...collect()`"""
+    from vflib import pipeline as PL
+    from vflib.intervals import Intervals, TYPE_RANGE
+    iv = Intervals()
+    out = []
+    seen = set()
+    for s in sites:
+        if s["kind"] != "call" or not s["term"].a[0].endswith("Iterator::collect"):
+            continue
+        src, stages = PL.unwind(s["term"])
+        if not (src.k == "adt" and src.a[0].startswith("core::ops::range::Range") and src.a[1] == "Range"):
+            continue
+        if id(s["node"]) in seen:
+            continue
+        seen.add(id(s["node"]))
+        pc = s["pc"]
+        fd = dict(src.a[2])
+        a, b = fd.get("start"), fd.get("end")
+        names_ = [st[0] for st in stages]
+        k = 0
+        rev = False
+        n_term = None
+        if k < len(names_) and names_[k] == "rev":
+            rev = True; k += 1
+        if k < len(names_) and names_[k] == "step_by":
+            n_term = stages[k][1][0]; k += 1
+        rest = names_[k:]
+        if not rest or rest[-1] != "collect" or rest[0] not in ("filter_map", "map") or any(x not in ("map", "filter_map", "collect") for x in rest):
+            abstain.append("range pipeline %s is not [rev] [step_by] filter_map|map .. collect" % names_); continue
+        # casts on the way must preserve the value (a negative i64 `as usize` wraps)
+        wraps = []
+        for t0 in (a, b) + ((n_term,) if n_term is not None else ()):
+            for x in subterms(t0):
+                if x.k == "cast":
+                    tr = TYPE_RANGE.get(x.a[0].strip())
+                    r = iv.iv(x.a[1], pc)
+                    if tr is not None and not (r[0] >= tr[0] and r[1] <= tr[1]):
+                        wraps.append(str(x)[:80])
+        marker = Tm("param", (95, "position"))
+        body = ev.apply(stages[k][1][0], [marker])
+        fetch = False
+        for x in subterms(body):
+            if x.k == "call" and (x.a[0] == "core::slice::<impl [T]>::get" or x.a[0].endswith("Index<I>>::index")) and len(x.a) == 3:
+                ix = x.a[2]
+                while ix.k == "cast":
+                    ix = ix.a[1]
+                if ix == marker:
+                    fetch = True
+        an, bn = norm(prog, a, names, arr), norm(prog, b, names, arr)
+        nn = norm(prog, n_term, names, arr) if n_term is not None else C(1)
+
+        def resolve(direction, an=an, bn=bn, nn=nn, rev=rev, wraps=wraps):
+            if wraps:
+                raise pwl.Undecided("a cast in the range bounds may wrap: %s" % wraps[0])
+            if nn[0] == "abs":
+                nn2 = nn[1] if direction == "pos" else neg(nn[1])
+            else:
+                nn2 = nn
+            if not rev:
+                return an, bn, nn2, (None if direction == "pos" else "an ascending range is walked in the branch for negative steps")
+            # (a..b).rev().step_by(n): b-1, b-1-n, ... > a-1
+            return mk("add", [bn, C(-1)]), mk("add", [an, C(-1)]), neg(nn2), (None if direction == "neg" else "a reversed range is walked in the branch for positive steps")
+        out.append({"kind": "range", "guard": _guard_of(prog, pc, names, arr), "resolve": resolve, "fetch": fetch, "where": T.loc(s["node"])})
+    return out
+
+
 def region_selfcheck(rep):
     """the region analysis must call known-equivalent rewrites equal and known-different ones different, on every run"""
     m = rfc_model()
@@ -569,39 +695,19 @@ def r6(prog, ev, rep, slice_fn, slice_args, index_fn, index_args):
         i = slice_args[slot]
         names[Tm("param", (i, c08._pname(prog, slice_fn, i)))] = nm
     sites = ev.sited(slice_fn)
-    loops = [s for s in sites if s["kind"] == "loop"]
-    ups = [s for s in sites if s["kind"] == "assignop"]
     gets = [s for s in sites if s["kind"] == "call" and (s["term"].a[0] in ("core::slice::<impl [T]>::get",) or s["term"].a[0].endswith("Index<I>>::index"))]
     abstain = []
     model = rfc_model()
-    if len(loops) != 2 or len(ups) != 2:
-        abstain.append("the handler is not two counter loops (found %d loops, %d updates)" % (len(loops), len(ups)))
+    arr = None
+    for g in gets:
+        arr = g["term"].a[1]
+    walks = loop_walks(prog, ev, sites, names, arr, gets, abstain) + range_walks(prog, ev, sites, names, arr, abstain)
+    if len(walks) != 2 and not abstain:
+        abstain.append("the handler is not two index walks (found %d: counter loops / stepped ranges)" % len(walks))
     decided = 0
     if not abstain:
-        arr = None
-        for g in gets:
-            arr = g["term"].a[1]
-        for u in ups:
-            term, pc = u["term"], u["pc"]      # bin(Add, phi(init | loopvar), step)
-            if term.a[0] not in ("Add", "Sub"):
-                abstain.append("update is not += / -="); continue
-            idx = term.a[1]
-            inits = [x for x in idx.a if x.k != "loopvar"] if idx.k == "phi" else [idx]
-            if len(inits) != 1:
-                abstain.append("loop counter has %d initial values" % len(inits)); continue
-            init = norm(prog, inits[0], names, arr)
-            stepn = norm(prog, term.a[2], names, arr)
-            if term.a[0] == "Sub":
-                stepn = neg(stepn)
-            # path condition: dispatch guard, then loop condition
-            guard = cond = None
-            for c in pc:
-                if c[0] == "arm" and c[3] is not None:
-                    guard = norm(prog, c[3], names, arr)
-                if c[0] == "if" and c[2] is True and c[1].k == "bin":
-                    cond = c[1]
-            if guard is None or cond is None:
-                abstain.append("dispatch guard / loop condition not found on the path to the update"); continue
+        for w in walks:
+            guard, where = w["guard"], w["where"]
             direction = None
             if guard == model["pos"]["guard"]:
                 direction = "pos"
@@ -609,35 +715,25 @@ def r6(prog, ev, rep, slice_fn, slice_args, index_fn, index_args):
                 direction = "neg"
             else:
                 # same shape as a sign test of the step? then it is wrong; else abstain
-                if shape(guard) == shape(model["pos"]["guard"]):
-                    rep.bad("C11-R6", "%s|guard" % slice_fn, T.loc(u["node"]),
+                if guard is not None and shape(guard) == shape(model["pos"]["guard"]):
+                    rep.bad("C11-R6", "%s|guard" % slice_fn, where,
                             "direction guard is `%s`; RFC 9535 distinguishes step > 0 and step < 0 with step = step.unwrap_or(1)" % show(guard))
                     decided += 1
                 else:
-                    abstain.append("dispatch guard `%s` has a different shape" % show(guard))
+                    abstain.append("dispatch guard `%s` has a different shape" % (show(guard) if guard else None))
                 continue
             mdl = model[direction]
             key = "%s|%s" % (slice_fn, direction)
-            where = T.loc(u["node"])
-            # loop condition: idx < bound (pos) / bound < idx (neg)
-            cn = norm(prog, cond, names, arr)
-            idxn = norm(prog, idx, names, arr)
-            bound = None
-            if cn[0] == "lt":
-                if direction == "pos" and cn[1] == idxn:
-                    bound = cn[2]
-                elif direction == "neg" and cn[2] == idxn:
-                    bound = cn[1]
-            if bound is None:
-                if cn[0] in ("lt", "nlt"):
-                    rep.bad("C11-R6", key + "/condition", where,
-                            "loop condition is `%s` with counter `%s`; RFC 9535 requires `%s`" % (show(cn), show(idxn), mdl["cond"]))
-                    decided += 1
-                else:
-                    abstain.append("loop condition `%s` has a different shape" % show(cn))
+            try:
+                init, bound, stepn, cond_problem = w["resolve"](direction)
+            except pwl.Undecided as u:
+                abstain.append("%s walk: %s" % (direction, u)); continue
+            if cond_problem:
+                rep.bad("C11-R6", key + "/condition", where, cond_problem + "; RFC 9535 requires `%s`" % mdl["cond"])
+                decided += 1
                 continue
             decided += 1
-            rep.ok("C11-R6", key + "/condition", where, mdl["cond"])
+            rep.ok("C11-R6", key + "/condition", where, mdl["cond"] + (" (inherent in the range)" if w["kind"] == "range" else ""))
             if init == mdl["init"] and bound == mdl["bound"]:
                 rep.ok("C11-R6", "%s/init" % key, where, show(mdl["init"])[:150])
                 rep.ok("C11-R6", "%s/bound" % key, where, show(mdl["bound"])[:150])
@@ -657,27 +753,25 @@ def r6(prog, ev, rep, slice_fn, slice_args, index_fn, index_args):
                     decided += 2
                 except pwl.Undecided as u:
                     abstain.append("%s walk: init `%s`, bound `%s` are not the RFC's text and region analysis is undecided (%s)" % (direction, show(init)[:100], show(bound)[:100], u))
-            for what, got, want in (("step", stepn, model["step"]),):
-                if got == want:
-                    rep.ok("C11-R6", "%s/%s" % (key, what), where, show(want)[:150]); decided += 1
-                elif shape(got) == shape(want):
-                    rep.bad("C11-R6", "%s/%s" % (key, what), where,
-                            "%s of the %s-step walk deviates from RFC 9535 2.3.4.2.2 at %s" % (
-                                {"init": "first index", "bound": "stop bound", "step": "increment"}[what],
-                                "positive" if direction == "pos" else "negative", diff(got, want) or "?"))
-                    decided += 1
-                else:
-                    abstain.append("%s/%s `%s` has a different shape than the RFC's `%s`" % (direction, what, show(got)[:120], show(want)[:120]))
+            want = model["step"]
+            if stepn == want:
+                rep.ok("C11-R6", "%s/step" % key, where, show(want)[:150]); decided += 1
+            elif shape(stepn) == shape(want) or stepn[0] == "const":
+                rep.bad("C11-R6", "%s/step" % key, where, "increment of the %s-step walk deviates from RFC 9535 2.3.4.2.2 at %s" % (
+                    "positive" if direction == "pos" else "negative", diff(stepn, want) or "?"))
+                decided += 1
+            else:
+                abstain.append("%s/step `%s` has a different shape than the RFC's `%s`" % (direction, show(stepn)[:120], show(want)[:120]))
             # the element emitted is the one at the counter
-            emitted = [g for g in gets if any(y == idx for y in subterms(g["term"].a[2]))]
-            if emitted:
+            if w["fetch"]:
                 rep.ok("C11-R6", key + "/element", where, "element fetched at the counter"); decided += 1
             else:
-                abstain.append("element fetch is not at the loop counter")
+                abstain.append("element fetch is not at the walk's counter")
     for a in abstain:
         rep.note("C11-R6 abstains: " + a)
     rep.extra["c11_r6_decided"] = decided
     rep.extra["c11_r6_abstained"] = abstain
+    rep.extra["c11_r6_walks"] = [w["kind"] for w in walks]
     # index selector: RFC 9535 2.3.3.2: i >= 0 selects a[i] iff i < len ; i < 0 selects a[len + i] iff len + i >= 0
     try:
         index_region_check(prog, ev, rep, index_fn, index_args, int_bounds)
